@@ -1,6 +1,6 @@
 #!/bin/bash
 set -e
-cd /verif/sim
+cd "$(dirname "$(readlink -f "$0")")"
 mkdir -p bin
 cargo build -q -p detgen --target-dir target/detgen 2>&1
 cp target/detgen/debug/detgen bin/detgen
